@@ -52,10 +52,13 @@ CLAIMED = {
         text="Lean theorems: html5lib's named reference table equals the standard's (all 2231 entries, decided in the kernel "
              "against CPython's independent html.entities.html5, both re-derived every run); numeric references decode to the "
              "standard's character for EVERY natural number (range split by omega + the table below 160 decided in the kernel), "
-             "always a single scalar value. The reference-consumption code (longest match, attribute exception, pushed-back "
-             "remainder) is the hand model H5.Model.CharRef tied by exact token comparison on every entity name in five "
-             "contexts and checked on the real code against an independent longest-match reference; the reverse "
-             "(serializer) clause is decided by search on the real code (partial).",
+             "always a single scalar value. Named references (C14b), for ANY table satisfying decidable table facts (keys non-empty, ';' only "
+             "last, strictly sorted — proved for the extracted table in the kernel): a name ending in ';' decodes to exactly "
+             "its value, consuming exactly the name, whatever follows (the 'serialized text decodes back' direction); the "
+             "general result equals the longest-match specification incl. the attribute-value exception and the pushed-back "
+             "remainder; and html5lib's consumeNamedEntity agrees with the WHATWG spec tokenizer's lookup. The model "
+             "H5.Model.CharRef is tied by exact token comparison on every entity name in five contexts; the numeric-fallback "
+             "round trip is a recorded finding.",
         note="Lean kernel; standard axioms; html.entities.html5 as the standard's table; bisect trie modelled abstractly.",
         technique="Lean 4 proof (kernel-decided tables + arithmetic) + exhaustive differential correspondence",
         design="6/C14"),
@@ -121,8 +124,11 @@ CLAIMED = {
              "run), tied by op ser over random option combinations on walked parses. Proved: the escaping lemmas "
              "(escaped text contains no '<'/'>', quoted values never contain their quote character, a value is written "
              "unquoted only if no character of the extracted class occurs in it; both classes contain every character that "
-             "would end or corrupt an unquoted value; '--' in comments and '</' in raw text are reported). The lexical "
-             "faithfulness clause itself is decided by search: the real output is re-tokenised by the independent WHATWG "
+             "would end or corrupt an unquoted value; '--' in comments and '</' in raw text are reported). Proved as well (C08b): text written by the "
+             "serializer in the data state (escape s, any s without NUL/CR) is re-tokenised by the WHATWG spec tokenizer to "
+             "exactly the text s — the macro-step lemmas for plain characters and for &amp; &lt; &gt; through the "
+             "character-reference states, induction with fuel, and canon. The remaining token kinds (tags, attributes, raw "
+             "text, comments, doctype) are decided by search: the real output is re-tokenised by the independent WHATWG "
              "tokenizer spec driven by the known element context and compared with the tokens given; failing streams are "
              "shrunk and classified (partial: the re-tokenisation theorem is not proved).",
         note="Lean kernel; standard axioms; H5.Spec.Tokenizer written from the standard from memory; lexical.py plan.",
